@@ -182,6 +182,20 @@ def repeated_split(ctx, conf):
                 rr.append(regions_of(auditok.split(rec, **rkw)))
                 rec.rewind()
             runs["recorder"] = rr
+            # ... and with a read limit: beyond the end of the stream (the limit never bites: same regions as without it),
+            # exactly at the end, or inside the stream (compared with its own first pass)
+            nsamp = len(data) // (case["width"] * case["channels"])
+            dur = nsamp / case["rate"]
+            which = ("beyond", "exact", "inside")[i % 3]
+            mr = {"beyond": dur + 1 + (i % 5), "exact": dur, "inside": dur * 0.6}[which]
+            if nsamp and round(mr * case["rate"]) >= (nsamp if which != "inside" else 1):
+                rec2 = Recorder(data, block_dur=case["w"], max_read=mr, **AC.audio_kwargs(case))
+                rr = []
+                for k in range(3):
+                    rr.append(regions_of(auditok.split(rec2, **rkw)))
+                    rec2.rewind()
+                runs["recorder_with_max_read_" + which] = rr
+                ctx.count("recorders_with_max_read_" + which)
             # one AudioReader over bytes: split it, close it, split it again (close() returns an in-memory source to its start)
             if case["w"] == case["block"] / case["rate"]:
                 rd = auditok.AudioReader(data, block_dur=case["w"], **AC.audio_kwargs(case))
@@ -216,7 +230,7 @@ def repeated_split(ctx, conf):
         for name, lst in runs.items():
             for k, r in enumerate(lst):
                 ctx.count("repeated_splits_compared")
-                if name == "recorder" and case["w"] != case["block"] / case["rate"]:
+                if name == "recorder_with_max_read_inside" or (name.startswith("recorder") and case["w"] != case["block"] / case["rate"]):
                     # the recorder counts durations in its own (shorter) block duration: compare it with itself only
                     if r != lst[0]:
                         ctx.violation("repeated-split-of-rewound-recorder-differs", {"case": cj, "run": k})
